@@ -233,6 +233,12 @@ class Interp:
             self.default_cache = {}
             self.module_values = {}
             self.no_fork = False
+            # observers and contract summaries belong to ONE execution of the scenario body (which registers them
+            # anew on every path): hooks of an earlier path would fire with that path's stale closures
+            self.call_hooks = []
+            self.summaries = {}
+            self.loop_specs = {}
+            self.__dict__.pop("call_func", None)
             try:
                 r = ("ok", thunk())
             except RaisedEx as e:
